@@ -59,31 +59,14 @@ func escapesWithout(from *ssa.BasicBlock, pass func(ssa.Instruction) bool) []*ss
 		}
 		return false
 	}
-	prev := map[*ssa.BasicBlock]*ssa.BasicBlock{from: nil}
-	q := []*ssa.BasicBlock{from}
-	for len(q) > 0 {
-		b := q[0]
-		q = q[1:]
-		if blocked(b) {
-			continue
+	isExit := func(b *ssa.BasicBlock) bool {
+		if len(b.Instrs) == 0 {
+			return false
 		}
-		if len(b.Instrs) > 0 {
-			if _, ok := b.Instrs[len(b.Instrs)-1].(*ssa.Return); ok {
-				var path []*ssa.BasicBlock
-				for x := b; x != nil; x = prev[x] {
-					path = append([]*ssa.BasicBlock{x}, path...)
-				}
-				return path
-			}
-		}
-		for _, s := range b.Succs {
-			if _, ok := prev[s]; !ok {
-				prev[s] = b
-				q = append(q, s)
-			}
-		}
+		_, ok := b.Instrs[len(b.Instrs)-1].(*ssa.Return)
+		return ok
 	}
-	return nil
+	return psSearch(from, nil, blocked, isExit)
 }
 
 func isWriteHeader(in ssa.Instruction, lo, hi int64) bool {
